@@ -730,6 +730,8 @@ pub struct ForeignOpts {
     pub offset_style: u8,
     /// non-object metadata for the C19 clause (archive is then NOT spec-valid)
     pub raw_metadata: Option<Vec<u8>>,
+    /// store identical bytes at several different offsets (a valid but not deduplicated writer)
+    pub dup_contents: bool,
 }
 
 /// Independent spec-level archive writer. Produces bytes + ground truth.
@@ -745,6 +747,17 @@ pub fn gen_foreign(rng: &mut Rng, o: &ForeignOpts) -> Foreign {
     if let Some(l) = lens.first_mut() {
         if rng.chance(1, 8) {
             *l = 70_000; // one large content
+        }
+    }
+    // pairs (k, j): content k is a byte-identical copy of content j, stored at its own offset
+    let mut copies: Vec<(usize, usize)> = Vec::new();
+    if o.dup_contents && n_contents >= 2 {
+        for k in 1..n_contents {
+            if rng.chance(1, 3) {
+                let j = rng.usize(0, k - 1);
+                lens[k] = lens[j];
+                copies.push((k, j));
+            }
         }
     }
     let mut order: Vec<usize> = (0..n_contents).collect();
@@ -767,6 +780,11 @@ pub fn gen_foreign(rng: &mut Rng, o: &ForeignOpts) -> Foreign {
     let salt = rng.next();
     for (i, b) in data.iter_mut().enumerate() {
         *b = (hash_u64s(&[salt, i as u64 / 8]) >> ((i % 8) * 8)) as u8;
+    }
+    for (k, j) in &copies {
+        let (a, b, l) = (offs[*j] as usize, offs[*k] as usize, lens[*j] as usize);
+        let src = data[a..a + l].to_vec();
+        data[b..b + l].copy_from_slice(&src);
     }
     let mut next_content = 0usize;
     for i in 0..n {
@@ -991,5 +1009,6 @@ pub fn gen_foreign_opts(rng: &mut Rng, codec: u8, max_entries: usize) -> Foreign
         empty_metadata: rng.chance(1, 5),
         offset_style: rng.below(3) as u8,
         raw_metadata: None,
+        dup_contents: rng.chance(1, 4),
     }
 }
